@@ -1311,6 +1311,9 @@ class StubsLib(StubsBase):
         if isinstance(a, Unit) and isinstance(b, Qty):
             if isinstance(op, ast.Mult):
                 return self.unit_binop(op, b, a, ctx)
+        if isinstance(b, Unit) and isinstance(a, (list, tuple)) and isinstance(op, (ast.Mult, ast.Div)):
+            # a sequence of numbers times a unit is the Quantity of the array of those numbers
+            return self.unit_binop(op, self.np_array(ctx, list(a)), b, ctx)
         raise Unsupported(f"unit arithmetic {type(op).__name__} {type(a).__name__} {type(b).__name__}")
 
     def _unit_mul(self, u1, u2, sign=1):
